@@ -68,7 +68,7 @@ def split_runs(trace, nshards):
 def conc_phase(ctx, tag, exe, scenarios, props, clr=True, maxruns=200000, nt=4):
     t = time.time()
     trace = ctx.work / f"{tag}.ndjson"
-    rc, out = sh([str(exe), str(trace), "1" if clr else "0", str(maxruns)] + scenarios, timeout=3000)
+    rc, out = sh([str(exe), str(trace), "1" if clr else "0", str(maxruns)] + scenarios, timeout=3000, env={"VERIF_SEED": str(ctx.seed)})
     if rc != 0:
         raise HarnessError(f"drv_conc failed rc={rc}: {out[-2000:]}")
     summ = json.loads(out.strip().splitlines()[-1])
@@ -137,6 +137,13 @@ def scen(threads):
     return f"{len(threads)}:" + ":".join(f"{r},{o}" for r, o in threads)
 
 
+# four-thread scenarios: too large for exhaustive schedule enumeration on the real code; sampled
+FOUR = [scen([("owner", "reset1"), ("weak", "lock"), ("weak", "lock"), ("weak", "lock")]),
+        scen([("owner", "reset1"), ("weak", "lock"), ("weak", "lock"), ("weak", "wreset")]),
+        scen([("both", "reset1"), ("weak", "lock"), ("both", "lock"), ("owner", "share")]),
+        scen([("owner", "reset1"), ("owner", "reset1"), ("weak", "lock"), ("weak", "lock")])]
+
+
 def run(ctx):
     props = {ctx.pid}
     exe = build_conc(ctx)
@@ -150,6 +157,8 @@ def run(ctx):
         conc_phase(ctx, "impl-t2", exe, two, props)
         conc_phase(ctx, "impl-t3", exe, [scen([("owner", "reset1"), ("weak", "lock"), ("weak", "lock")]),
                                          scen([("owner", "reset1"), ("weak", "lock"), ("weak", "wreset")])], props)
+        # larger scenarios: randomly sampled schedules (no pruning)
+        conc_phase(ctx, "rand-t4", exe, FOUR, props, maxruns=-2500)
     else:
         l0_conc(ctx, "t3", 3, ["owner", "weak", "both"], ["reset1", "lock", "wreset", "share"])
         l0_conc(ctx, "t4", 4, ["owner", "weak"], ["reset1", "lock", "wreset"], live=False)
@@ -159,7 +168,7 @@ def run(ctx):
                  for b in [("weak", "lock"), ("both", "lock"), ("weak", "wreset")]
                  for c in [("weak", "lock"), ("weak", "wreset"), ("owner", "reset1"), ("both", "wfrom")]]
         conc_phase(ctx, "impl-t3", exe, three, props)
-        conc_phase(ctx, "impl-t4", exe, [scen([("owner", "reset1"), ("weak", "lock"), ("weak", "lock"), ("weak", "wreset")])], props, maxruns=60000)
+        conc_phase(ctx, "rand-t4", exe, FOUR, props, maxruns=-40000)
     ctx.cov["exhaustive"] = not ctx.violations and not ctx.cov["spec_drift"]
     ctx.assumptions += [
         "all synchronisation in memory.c is seq_cst (C11 defaults), so sequentially consistent interleavings at atomic-step granularity are all behaviours; a data race exists iff some interleaving makes two conflicting plain accesses adjacent, which the scheduler's pending-operation check observes",
